@@ -183,6 +183,7 @@ def run(tier="quick", seed=0, replay=None):
         print(open(replay).read())
         return 1
     core.lean_stage(chk, "C13")
+    core.soft_bridge(chk, props=("GenRiverLoss",))
     from harness import cover
     from harness import fingerprint
     fingerprint.direct(chk, ['ixai/utils/wrappers/river.py', 'ixai/utils/validators/loss.py'])
